@@ -247,6 +247,17 @@ def rule_r5(ctx):
                 f"PendingFunctionDef.get_result: on the path [{short_ctx(pr, 140)}] the method `{fixed}` is not passed through classmethod(): type.__new__ makes it a class method whenever the (decorated) attribute is a plain function, e.g. under a tracing decorator built with functools.wraps; stored as a plain function, `cls` is not bound (TypeError on subclass creation / subscription)",
                 what=f"wrap|every-path|{fixed}",
             )
+        if fixed is None and not wraps and (not is_method or is_method[0]):
+            # the path ends without the wrap although the method's name was never compared with
+            # (or not excluded from) the implicit names: some other test - the decorator list, an
+            # option - short-circuited the decision
+            excluded = {n for n, v in name_tests.items() if v is False}
+            for n in sorted(IMPLICIT_CLASSMETHODS - excluded):
+                rr.fail(
+                    f"C12-R5|{n}|not-wrapped-on-some-path",
+                    f"PendingFunctionDef.get_result: the path [{short_ctx(pr, 140)}] stores a method without classmethod() and without having excluded the name `{n}`: type.__new__ makes `{n}` a class method whenever the (decorated) attribute is a plain function; stored as a plain function, `cls` is not bound (TypeError on subclass creation / subscription)",
+                    what=f"wrap|every-path|{n}",
+                )
         if wraps:
             # Python makes these methods class methods AFTER the decorators have been applied
             stores = [e for e in evs if e.kind == "store" and isinstance(e.extra.get("name"), UPrim) and e.extra["name"].field == "name"]
